@@ -1,14 +1,21 @@
 // C17 — template variables passed to Run are the values every reference sees.
 //
 // A global v is declared without a value (native.Declarations{"v": (*T)(nil)})
-// and every sequence of up to three references to it — reads and writes at the
-// top level, in a macro, in a macro called by a macro, in an imported macro, in
-// a rendered file, and (extends scenario) in an extended layout calling the
-// child's macros — is built and run with vars absent / a value / a pointer.
-// Oracle: one memory cell. Reads print the supplied value (or the zero value)
-// and then the latest write in execution order; with a pointer the caller's
-// variable holds the final value, with a value the caller's copy is untouched;
-// UsedVars lists v exactly once (and never the unused global w).
+// and every sequence of references to it — reads and writes at the top level,
+// in a macro, in a macro called by a macro, in an imported macro, in a rendered
+// file, through a function literal nested in a macro (with and without an
+// earlier reference in the macro body), through a function literal in a
+// {%% %%} block at the top level, and (extends scenario) in an extended layout
+// calling the child's macros — is built and run with vars absent / a value / a
+// pointer, optionally next to an imported file that declares its own,
+// unrelated package-level variable with the same name v.
+//
+// Oracle: one memory cell for the global (and a second, independent cell for
+// the imported file's own v). Reads print the supplied value (or the zero
+// value) and then the latest write in execution order; with a pointer the
+// caller's variable holds the final value, with a value the caller's copy is
+// untouched; UsedVars lists the global exactly once (and never the unused
+// global w).
 package main
 
 import (
@@ -24,7 +31,7 @@ import (
 	"github.com/open2b/scriggo/native"
 )
 
-// S is the small struct type of the struct-kind variable.
+// S is the small struct type of the struct-kind variables.
 type S struct{ A int }
 
 // ---- reference kinds ----
@@ -35,10 +42,17 @@ const (
 	siteNested
 	siteImported
 	siteRendered
+	siteLitInMacro      // function literal in a {%% %%} block of a macro; the macro body itself has no reference
+	siteLitAfterBodyRef // the same, but the macro body references the global before the literal does
+	siteLitTop          // function literal in a {%% %%} block at the top level
+	siteShadow          // NOT the global: the package-level variable v of an imported file
 	nSites
 )
 
-var siteName = [...]string{"top-level", "macro", "nested-macro", "imported-macro", "rendered-file"}
+const nOriginalSites = siteRendered + 1
+
+var siteName = [...]string{"top-level", "macro", "nested-macro", "imported-macro", "rendered-file",
+	"func-literal-in-macro", "func-literal-in-macro-after-body-reference", "func-literal-at-top-level", "same-name-variable-of-imported-file"}
 
 type ref struct {
 	site  int
@@ -60,39 +74,40 @@ var refKinds = func() []ref {
 	return k
 }()
 
-var refKindNames = func() []string {
-	n := make([]string, len(refKinds))
-	for i, r := range refKinds {
-		n[i] = r.String()
+func refKindNames(n int) []string {
+	names := make([]string, n)
+	for i := range names {
+		names[i] = refKinds[i].String()
 	}
-	return n
-}()
+	return names
+}
 
 // ---- variable kinds ----
 
 type varKind struct {
 	name     string
 	decl     any                                         // typed nil pointer for Declarations
-	readExpr string                                      // expression shown by a read
+	readTpl  string                                      // template source printing the variable
+	readFn   string                                      // function literal returning what a read prints
 	lit      func(k int) string                          // source of the value written at position k
 	printed  func(k int) string                          // what a read prints for it
 	zero     string                                      // print of the zero value
 	supplied string                                      // print of the supplied value
-	mkValue  func() (val any, ptr any, deref func() any) // fresh supplied value, pointer to a fresh variable holding it
+	mkValue  func() (val any, ptr any, deref func() any) // fresh supplied value; pointer to a fresh variable holding it
 	final    func(k int) any                             // Go value written at position k
 }
 
+func intLit(k int) string { return fmt.Sprint(10 + k) }
+
 var varKinds = []varKind{
 	{
-		name: "int", decl: (*int)(nil), readExpr: "v",
-		lit:     func(k int) string { return fmt.Sprint(10 + k) },
-		printed: func(k int) string { return fmt.Sprint(10 + k) },
-		zero:    "0", supplied: "5",
+		name: "int", decl: (*int)(nil), readTpl: "{{ v }}", readFn: "func() int { return v }",
+		lit: intLit, printed: intLit, zero: "0", supplied: "5",
 		mkValue: func() (any, any, func() any) { x := 5; return 5, &x, func() any { return x } },
 		final:   func(k int) any { return 10 + k },
 	},
 	{
-		name: "string", decl: (*string)(nil), readExpr: "v",
+		name: "string", decl: (*string)(nil), readTpl: "{{ v }}", readFn: "func() string { return v }",
 		lit:     func(k int) string { return fmt.Sprintf("%q", fmt.Sprintf("w%d", k)) },
 		printed: func(k int) string { return fmt.Sprintf("w%d", k) },
 		zero:    "", supplied: "s5",
@@ -100,12 +115,28 @@ var varKinds = []varKind{
 		final:   func(k int) any { return fmt.Sprintf("w%d", k) },
 	},
 	{
-		name: "struct", decl: (*S)(nil), readExpr: "v.A",
+		name: "struct", decl: (*S)(nil), readTpl: "{{ v.A }}", readFn: "func() int { return v.A }",
 		lit:     func(k int) string { return fmt.Sprintf("S{A: %d}", 10+k) },
-		printed: func(k int) string { return fmt.Sprint(10 + k) },
-		zero:    "0", supplied: "5",
+		printed: intLit, zero: "0", supplied: "5",
 		mkValue: func() (any, any, func() any) { x := S{5}; return S{5}, &x, func() any { return x } },
 		final:   func(k int) any { return S{10 + k} },
+	},
+	{
+		// a global of interface type
+		name: "interface", decl: (*any)(nil), readTpl: "{{ v }}", readFn: "func() any { return v }",
+		lit: intLit, printed: intLit, zero: "", supplied: "5",
+		mkValue: func() (any, any, func() any) { var x any = 5; return 5, &x, func() any { return x } },
+		final:   func(k int) any { return 10 + k },
+	},
+	{
+		// a global of pointer-to-struct type; a nil pointer prints -1
+		name: "pointer-to-struct", decl: (**S)(nil),
+		readTpl: "{% if v == nil %}-1{% else %}{{ v.A }}{% end %}",
+		readFn:  "func() int {\n  if v == nil {\n   return -1\n  }\n  return v.A\n }",
+		lit:     func(k int) string { return fmt.Sprintf("&S{A: %d}", 10+k) },
+		printed: intLit, zero: "-1", supplied: "5",
+		mkValue: func() (any, any, func() any) { x := &S{5}; return &S{5}, &x, func() any { return x } },
+		final:   func(k int) any { return &S{10 + k} },
 	},
 }
 
@@ -114,25 +145,46 @@ var modes = []string{"absent", "value", "pointer"}
 // scenarios: where the macros are declared / whether the sequence runs in an extended layout
 var scenarios = []string{"macros-declared-first", "macros-declared-just-before-first-call", "sequence-in-extended-layout"}
 
+// shadow: an imported file b.html declares its own package-level variable
+// named v (an int, initially 10) with macros reading and writing it
+var shadows = []string{"no-same-name-variable", "file-with-same-name-variable-imported-first", "file-with-same-name-variable-imported-last"}
+
+func shadowLit(k int) string { return fmt.Sprint(20 + k) }
+
 // ---- template generation ----
 
 type tcase struct {
-	seq  []ref
-	scen int
-	kind varKind
-	mode string
+	seq    []ref
+	scen   int
+	kind   varKind
+	mode   string
+	shadow int
 }
 
 type generated struct {
 	files    map[string]string
 	fileOf   []string // file holding reference k
 	expected string
-	cellSrc  []int // for each read position: -1 supplied, else index of the write observed
+	cellSrc  []int // for each read of the sequence, in order: -1 initial value, else index of the write observed
+}
+
+// applicable reports whether the case is a member of the space: references to
+// the imported file's own variable need that file.
+func (c tcase) applicable() bool {
+	if c.shadow != 0 {
+		return true
+	}
+	for _, r := range c.seq {
+		if r.site == siteShadow {
+			return false
+		}
+	}
+	return true
 }
 
 func (c tcase) generate() generated {
 	vk := c.kind
-	read := "[{{ " + vk.readExpr + " }}]"
+	read := "[" + vk.readTpl + "]"
 	write := func(k int) string { return "{% v = " + vk.lit(k) + " %}" }
 	g := generated{files: map[string]string{}}
 	ext := c.scen == 2
@@ -142,9 +194,10 @@ func (c tcase) generate() generated {
 		bodyFile = "layout.html"
 	}
 	declared := map[string]bool{}
-	var decls strings.Builder // all macro declarations, in order of need
-	var body strings.Builder  // the executing sequence
-	var imp strings.Builder   // imported file
+	var decls strings.Builder  // all macro declarations, in order of need
+	var body strings.Builder   // the executing sequence
+	var imp strings.Builder    // imported file with macros referring to the global
+	var shadow strings.Builder // imported file with its own v
 	needImport := false
 	declare := func(dst *strings.Builder, name, src string) {
 		if !declared[name] {
@@ -152,6 +205,8 @@ func (c tcase) generate() generated {
 			fmt.Fprintf(dst, "{%% macro %s %%}%s{%% end %%}", name, src)
 		}
 	}
+	shadow.WriteString("{% var v = 10 %}")
+	declare(&shadow, "BR", "<{{ v }}>")
 	for i, r := range c.seq {
 		k := i + 1
 		// where do the macro declarations of this reference go?
@@ -210,6 +265,37 @@ func (c tcase) generate() generated {
 				g.files[file] = read
 			}
 			call = `{{ render "` + file + `" }}`
+		case siteLitInMacro, siteLitAfterBodyRef:
+			file = macroFile
+			prefix, bodyRef := "F", ""
+			if r.site == siteLitAfterBodyRef {
+				prefix, bodyRef = "G", " _ = v\n"
+			}
+			if r.write {
+				n := fmt.Sprintf("%sW%d", prefix, k)
+				declare(dst, n, "{%%\n"+bodyRef+" f := func() { v = "+vk.lit(k)+" }\n f()\n%%}")
+				call = "{{ " + n + "() }}"
+			} else {
+				n := prefix + "R"
+				declare(dst, n, "{%%\n"+bodyRef+" f := "+vk.readFn+"\n%%}[{{ f() }}]")
+				call = "{{ " + n + "() }}"
+			}
+		case siteLitTop:
+			file = bodyFile
+			if r.write {
+				call = fmt.Sprintf("{%%%%\n t%d := func() { v = %s }\n t%d()\n%%%%}", k, vk.lit(k), k)
+			} else {
+				call = fmt.Sprintf("{%%%%\n t%d := %s\n%%%%}[{{ t%d() }}]", k, vk.readFn, k)
+			}
+		case siteShadow:
+			file = "b.html"
+			if r.write {
+				n := fmt.Sprintf("BW%d", k)
+				declare(&shadow, n, "{% v = "+shadowLit(k)+" %}")
+				call = "{{ " + n + "() }}"
+			} else {
+				call = "{{ BR() }}"
+			}
 		}
 		g.fileOf = append(g.fileOf, file)
 		body.WriteString(call)
@@ -219,30 +305,51 @@ func (c tcase) generate() generated {
 		importStmt = `{% import "imp.html" %}`
 		g.files["imp.html"] = imp.String()
 	}
+	switch c.shadow {
+	case 1:
+		importStmt = `{% import "b.html" %}` + importStmt
+	case 2:
+		importStmt += `{% import "b.html" %}`
+	}
+	if c.shadow != 0 {
+		g.files["b.html"] = shadow.String()
+	}
 	if ext {
 		g.files["index.html"] = `{% extends "layout.html" %}` + decls.String()
 		g.files["layout.html"] = importStmt + body.String()
 	} else {
 		g.files["index.html"] = importStmt + decls.String() + body.String()
 	}
-	// the one-cell model
-	cell := -1
+	// the model: one cell for the global, one for the imported file's own v
+	cell, cell2 := -1, -1
 	var exp strings.Builder
 	for i, r := range c.seq {
-		if r.write {
+		switch {
+		case r.site == siteShadow && r.write:
+			cell2 = i
+		case r.site == siteShadow:
+			g.cellSrc = append(g.cellSrc, cell2)
+			exp.WriteString("<" + c.printOf(r, cell2) + ">")
+		case r.write:
 			cell = i
-			continue
+		default:
+			g.cellSrc = append(g.cellSrc, cell)
+			exp.WriteString("[" + c.printOf(r, cell) + "]")
 		}
-		g.cellSrc = append(g.cellSrc, cell)
-		exp.WriteString("[" + c.printOf(cell) + "]")
 	}
 	g.expected = exp.String()
 	return g
 }
 
-// printOf returns what a read prints when the cell was last set by the write
-// at index w (-1: never written).
-func (c tcase) printOf(w int) string {
+// printOf returns what the read r prints when its cell was last set by the
+// write at index w (-1: never written).
+func (c tcase) printOf(r ref, w int) string {
+	if r.site == siteShadow {
+		if w >= 0 {
+			return shadowLit(w + 1)
+		}
+		return "10"
+	}
 	if w >= 0 {
 		return c.kind.printed(w + 1)
 	}
@@ -265,24 +372,48 @@ func showFiles(files map[string]string) string {
 	return b.String()
 }
 
-// splitReads splits "[a][b]" into its bracketed values.
-func splitReads(out string) ([]string, bool) {
-	var vals []string
+type readTok struct {
+	shadow bool
+	val    string
+}
+
+// splitReads splits "[a]<b>[c]" into its bracketed values.
+func splitReads(out string) ([]readTok, bool) {
+	var vals []readTok
 	for len(out) > 0 {
-		if out[0] != '[' {
+		var cl byte
+		switch out[0] {
+		case '[':
+			cl = ']'
+		case '<':
+			cl = '>'
+		default:
 			return nil, false
 		}
-		j := strings.IndexByte(out, ']')
+		j := strings.IndexByte(out, cl)
 		if j < 0 {
 			return nil, false
 		}
-		vals = append(vals, out[1:j])
+		vals = append(vals, readTok{out[0] == '<', out[1:j]})
 		out = out[j+1:]
 	}
 	return vals, true
 }
 
+// runTemplate runs t and converts a panic of Run into an error message.
+func runTemplate(t *scriggo.Template, out *bytes.Buffer, vars map[string]any) (panicked string, err error) {
+	defer func() {
+		if r := recover(); r != nil {
+			panicked = fmt.Sprint(r)
+		}
+	}()
+	return "", t.Run(out, vars, nil)
+}
+
 func (c tcase) eval() kit.Outcome {
+	if !c.applicable() {
+		return kit.Outcome{OK: true, Class: "not a case: reference to the imported file's variable without that file"}
+	}
 	g := c.generate()
 	fsys := scriggo.Files{}
 	for k, v := range g.files {
@@ -291,7 +422,7 @@ func (c tcase) eval() kit.Outcome {
 	decl := native.Declarations{"v": c.kind.decl, "w": (*int)(nil), "S": reflect.TypeFor[S]()}
 	t, err := scriggo.BuildTemplate(fsys, "index.html", &scriggo.BuildOptions{Globals: decl})
 	describe := func() string {
-		return fmt.Sprintf("variable kind %s, vars %s, scenario %s, references %v\nfiles:\n%s", c.kind.name, c.mode, scenarios[c.scen], c.seq, showFiles(g.files))
+		return fmt.Sprintf("variable kind %s, vars %s, scenario %s, %s, references %v\nfiles:\n%s", c.kind.name, c.mode, scenarios[c.scen], shadows[c.shadow], c.seq, showFiles(g.files))
 	}
 	if err != nil {
 		return kit.Outcome{OK: false, Class: "BuildError", Nontrivial: true,
@@ -299,6 +430,10 @@ func (c tcase) eval() kit.Outcome {
 			Detail: describe() + "BuildTemplate: " + err.Error() + " (every generated template is valid)"}
 	}
 	val, ptr, deref := c.kind.mkValue()
+	snapshot := fmt.Sprintf("%#v", val)
+	if p, ok := val.(*S); ok {
+		snapshot = fmt.Sprintf("&%#v", *p)
+	}
 	var vars map[string]any
 	switch c.mode {
 	case "value":
@@ -307,18 +442,31 @@ func (c tcase) eval() kit.Outcome {
 		vars = map[string]any{"v": ptr}
 	}
 	var out bytes.Buffer
-	if err := t.Run(&out, vars, nil); err != nil {
+	panicked, err := runTemplate(t, &out, vars)
+	if panicked != "" {
+		return kit.Outcome{OK: false, Class: "Run panics", Nontrivial: true,
+			Key:    fmt.Sprintf("run-panics|variable-kind=%s|vars=%s|%s", c.kind.name, c.mode, kit.NormMsg(panicked)),
+			Detail: describe() + fmt.Sprintf("Run(vars = %#v) panicked: %s", vars, panicked)}
+	}
+	if err != nil {
 		return kit.Outcome{OK: false, Class: "RunError", Nontrivial: true,
 			Key:    "run-error|" + kit.NormMsg(err.Error()),
 			Detail: describe() + "Run: " + err.Error()}
 	}
 	o := kit.Outcome{OK: true, Nontrivial: len(c.seq) > 0, Ops: len(c.seq) + 1}
-	nread, nwrite, nfiles := 0, 0, map[string]bool{}
+	nread, nwrite, nglobal, nfiles := 0, 0, 0, map[string]bool{}
+	lit, sh := false, c.shadow != 0
 	for i, r := range c.seq {
 		if r.write {
 			nwrite++
 		} else {
 			nread++
+		}
+		if r.site != siteShadow {
+			nglobal++
+		}
+		if r.site == siteLitInMacro || r.site == siteLitAfterBodyRef || r.site == siteLitTop {
+			lit = true
 		}
 		nfiles[g.fileOf[i]] = true
 	}
@@ -334,6 +482,12 @@ func (c tcase) eval() kit.Outcome {
 	default:
 		o.Class = "reads and writes in one file"
 	}
+	if lit {
+		o.Class += ", through function literals"
+	}
+	if sh {
+		o.Class += ", next to a same-name variable"
+	}
 	fail := func(key, what string) kit.Outcome {
 		o.OK = false
 		o.Key = key
@@ -341,9 +495,20 @@ func (c tcase) eval() kit.Outcome {
 		o.Detail = describe() + what
 		return o
 	}
+	isShadowValue := func(s string) bool {
+		if s == "10" {
+			return true
+		}
+		for k := 1; k <= len(c.seq); k++ {
+			if s == shadowLit(k) {
+				return true
+			}
+		}
+		return false
+	}
 	// 1. the output
 	if got := out.String(); got != g.expected {
-		what := fmt.Sprintf("expected output %q (one cell: supplied value, then the latest write)\nobserved output %q\nUsedVars %v", g.expected, got, t.UsedVars())
+		what := fmt.Sprintf("expected output %q ([x] reads of the global: supplied value, then the latest write; <x> reads of the imported file's own v)\nobserved output %q\nUsedVars %v", g.expected, got, t.UsedVars())
 		vals, ok := splitReads(got)
 		if !ok || len(vals) != len(g.cellSrc) {
 			return fail("output-malformed", what)
@@ -355,19 +520,37 @@ func (c tcase) eval() kit.Outcome {
 				continue
 			}
 			src := g.cellSrc[ri]
-			if vals[ri] != c.printOf(src) {
+			if vals[ri].shadow != (r.site == siteShadow) {
+				return fail("output-malformed", what)
+			}
+			if vals[ri].val != c.printOf(r, src) {
 				observed := "other"
 				switch {
-				case vals[ri] == c.kind.zero:
+				case r.site == siteShadow:
+					if vals[ri].val == c.kind.supplied || vals[ri].val == c.kind.zero {
+						observed = "value-of-the-global"
+					}
+					for w := 0; w < len(c.seq); w++ {
+						if c.seq[w].write && c.seq[w].site != siteShadow && vals[ri].val == c.kind.printed(w+1) {
+							observed = "value-of-the-global"
+						}
+					}
+					return fail("same-name-variable-of-imported-file|its-read-observed="+observed, what)
+				case vals[ri].val == c.kind.zero:
 					observed = "zero-value"
-				case c.mode != "absent" && vals[ri] == c.kind.supplied:
+				case c.mode != "absent" && vals[ri].val == c.kind.supplied:
 					observed = "supplied-value"
+				case isShadowValue(vals[ri].val):
+					observed = "value-of-the-imported-file's-same-name-variable"
 				default:
 					for w := 0; w < i; w++ {
-						if c.seq[w].write && vals[ri] == c.kind.printed(w+1) {
+						if c.seq[w].write && vals[ri].val == c.kind.printed(w+1) {
 							observed = "earlier-write"
 						}
 					}
+				}
+				if observed == "value-of-the-imported-file's-same-name-variable" {
+					return fail("global-read-observed-the-imported-file's-same-name-variable", what)
 				}
 				if src < 0 {
 					return fail("supplied-value-not-observed|observed="+observed, what)
@@ -389,7 +572,7 @@ func (c tcase) eval() kit.Outcome {
 	// 2. the caller's variable
 	last := -1
 	for i, r := range c.seq {
-		if r.write {
+		if r.write && r.site != siteShadow {
 			last = i
 		}
 	}
@@ -404,77 +587,116 @@ func (c tcase) eval() kit.Outcome {
 			if reflect.DeepEqual(got, val) {
 				observed = "supplied-value"
 			}
+			if n, ok := got.(int); ok && isShadowValue(fmt.Sprint(n)) {
+				return fail("caller-variable-after-run|vars=pointer|overwritten-by-the-imported-file's-same-name-variable",
+					fmt.Sprintf("output %q as expected\nvariable behind the pointer after Run: %v, expected %v", out.String(), got, want))
+			}
 			return fail("caller-variable-after-run|vars=pointer|final-value-not-the-last-write",
-				fmt.Sprintf("output %q as expected\nvariable behind the pointer after Run: %v (%s), expected %v", out.String(), got, observed, want))
+				fmt.Sprintf("output %q as expected\nvariable behind the pointer after Run: %#v (%s), expected %#v", out.String(), got, observed, want))
 		}
 	case "value":
-		if got := vars["v"]; !reflect.DeepEqual(got, val) {
-			return fail("caller-copy-modified|vars=value", fmt.Sprintf("vars[\"v\"] after Run: %v, expected %v", got, val))
+		now := fmt.Sprintf("%#v", vars["v"])
+		if p, ok := vars["v"].(*S); ok && p != nil {
+			now = fmt.Sprintf("&%#v", *p)
+		}
+		if now != snapshot {
+			return fail("caller-copy-modified|vars=value", fmt.Sprintf("vars[\"v\"] after Run: %s, before: %s", now, snapshot))
 		}
 	}
 	// 3. UsedVars
-	want := []string{}
-	if len(c.seq) > 0 {
-		want = []string{"v"}
-	}
 	got := t.UsedVars()
-	if len(got) != len(want) || len(got) == 1 && got[0] != "v" {
-		n := 0
-		other := false
-		for _, s := range got {
-			if s == "v" {
-				n++
-			} else {
-				other = true
-			}
+	n, other := 0, false
+	for _, s := range got {
+		if s == "v" {
+			n++
+		} else {
+			other = true
 		}
+	}
+	wantN := 0
+	if nglobal > 0 {
+		wantN = 1
+	}
+	// The imported file's own package-level v is reported by UsedVars as
+	// well (as is any package-level variable of an imported or extending
+	// file); the statement does not speak about such variables, so one extra
+	// "v" is tolerated when that file is present.
+	okN := n == wantN || sh && n == wantN+1
+	if other || !okN {
 		key := "usedvars|"
 		switch {
 		case other:
 			key += "lists-an-unreferenced-name"
-		case n > 1:
+		case n > wantN:
 			key += "lists-v-more-than-once"
 		default:
 			key += "misses-v"
 		}
-		return fail(key, fmt.Sprintf("output %q as expected\nUsedVars() = %v, expected %v", out.String(), got, want))
+		return fail(key, fmt.Sprintf("output %q as expected\nUsedVars() = %v, expected \"v\" %d time(s)", out.String(), got, wantN))
 	}
 	return o
 }
 
 func spaces(tier string) []kit.Space {
-	en := kit.NewStringsUpTo(refKindNames, 3)
-	rest := kit.Product(uint64(len(scenarios)), uint64(len(varKinds)), uint64(len(modes)))
-	mk := func(i uint64) tcase {
-		d := kit.Mixed(i%rest, uint64(len(modes)), uint64(len(varKinds)), uint64(len(scenarios)))
-		var seq []ref
-		for _, a := range en.Atoms(i / rest) {
-			seq = append(seq, refKinds[a])
-		}
-		return tcase{seq: seq, mode: modes[d[0]], kind: varKinds[d[1]], scen: int(d[2])}
+	rest := kit.Product(uint64(len(modes)), uint64(len(varKinds)), uint64(len(scenarios)), uint64(len(shadows)))
+	describe := func(c tcase) any {
+		g := c.generate()
+		return map[string]any{"references": fmt.Sprint(c.seq), "scenario": scenarios[c.scen], "kind": c.kind.name, "vars": c.mode, "same_name_variable": shadows[c.shadow], "files": g.files, "expected_output": g.expected}
 	}
-	return []kit.Space{{
-		Name: "reference-sequences",
-		Size: en.Size() * rest,
-		Eval: func(i uint64) kit.Outcome { return mk(i).eval() },
-		Describe: func(i uint64) any {
-			c := mk(i)
-			g := c.generate()
-			return map[string]any{"references": fmt.Sprint(c.seq), "scenario": scenarios[c.scen], "kind": c.kind.name, "vars": c.mode, "files": g.files, "expected_output": g.expected}
+	full := func(maxLen int) kit.Space {
+		en := kit.NewStringsUpTo(refKindNames(len(refKinds)), maxLen)
+		mk := func(i uint64) tcase {
+			d := kit.Mixed(i%rest, uint64(len(modes)), uint64(len(varKinds)), uint64(len(scenarios)), uint64(len(shadows)))
+			var seq []ref
+			for _, a := range en.Atoms(i / rest) {
+				seq = append(seq, refKinds[a])
+			}
+			return tcase{seq: seq, mode: modes[d[0]], kind: varKinds[d[1]], scen: int(d[2]), shadow: int(d[3])}
+		}
+		return kit.Space{
+			Name:     "reference-sequences",
+			Size:     en.Size() * rest,
+			Eval:     func(i uint64) kit.Outcome { return mk(i).eval() },
+			Describe: func(i uint64) any { return describe(mk(i)) },
+		}
+	}
+	if tier == "thorough" {
+		return []kit.Space{full(3)}
+	}
+	// quick: every sequence of length <= 2 over all 18 kinds in every
+	// configuration, plus every sequence of length 3 over the 10 kinds of
+	// the five plain sites for the three basic variable kinds
+	const nOrig = 2 * nOriginalSites
+	rest3 := kit.Product(uint64(len(modes)), 3, uint64(len(scenarios)))
+	mk3 := func(i uint64) tcase {
+		d := kit.Mixed(i, uint64(len(modes)), 3, uint64(len(scenarios)), nOrig, nOrig, nOrig)
+		return tcase{seq: []ref{refKinds[d[5]], refKinds[d[4]], refKinds[d[3]]}, mode: modes[d[0]], kind: varKinds[d[1]], scen: int(d[2])}
+	}
+	return []kit.Space{
+		full(2),
+		{
+			Name:     "length-3.plain-sites",
+			Size:     rest3 * nOrig * nOrig * nOrig,
+			Eval:     func(i uint64) kit.Outcome { return mk3(i).eval() },
+			Describe: func(i uint64) any { return describe(mk3(i)) },
 		},
-	}}
+	}
 }
 
 func main() {
 	kit.Main(&kit.Check{
 		ID:    "C17",
 		Level: "model_checking",
-		Rule: "every sequence of 0..3 references out of 10 kinds (read | write) x (top level, macro, macro called by a macro, imported macro, rendered file) x 3 scenarios (macros declared first; macros declared just before their first call; the sequence runs in an extended layout and the macros are the child's) x 3 variable kinds (int, string, struct) x vars (absent, value, pointer); " +
-			"both tiers are the same complete space; a case is non-trivial when it has at least one reference (it builds, runs, and its output, the caller's variable and UsedVars are compared with the one-cell model)",
+		Rule: "reference kinds: (read | write) x 9 sites (top level, macro, macro called by a macro, imported macro, rendered file, function literal in a {%% %%} block of a macro, the same after a reference in the macro body, function literal in a top-level {%% %%} block, and the same-name package-level variable of an imported file) = 18; " +
+			"configurations: 3 scenarios (macros declared first; just before their first call; sequence runs in an extended layout and the macros are the child's) x 5 variable kinds (int, string, struct, interface, pointer to struct) x vars (absent, value, pointer) x 3 (no file with a same-name variable, such a file imported first / last). " +
+			"thorough: every sequence of 0..3 references in every configuration; quick: every sequence of 0..2 references in every configuration plus every sequence of exactly 3 references over the 5 plain sites for int/string/struct without the same-name file. " +
+			"Sequences that refer to the same-name variable in a configuration without its file are counted in their own class and are not cases. A case is non-trivial when it has at least one reference (it builds, runs, and its output, the caller's variable and UsedVars are compared with the model)",
 		Assumptions: []string{
 			"in the extends scenario 'top level' is the extended layout and the macro sites are the extending file's macros called from the layout",
-			"every write stores a value distinct from the zero value, the supplied value and every other write of the case, so each read identifies the write it observed",
+			"every write stores a value distinct from the zero value, the supplied value, every other write of the case and every value of the imported file's own variable, so each read identifies the write it observed",
 			"a second declared global w is never referenced and must not be listed by UsedVars",
+			"UsedVars also reports package-level variables declared by imported or extending template files (observed on the unchanged tree: a file with {% var foo = 10 %} adds foo); the statement is about globals only, so when the file with its own v is imported one extra v is tolerated",
+			"an interface-typed global supplied by value is given as vars{\"v\": 5}: any value is a value of type any",
 			"the verdict names the first discrepancy in the order: output, caller's variable, UsedVars",
 		},
 		Spaces: spaces,
